@@ -106,6 +106,8 @@ def gen_history(rng, ctx):
                           base + rng.randrange(0, 1 << 20) if c < 0.8 else rng.choice((0, (1 << 64) - 1, rng.getrandbits(64))))
         n_records = (depth + 3) // 4 + rng.choice((0, 0, 1))
         nframes = rng.choice((depth, depth, max(0, depth - 1), depth + 2, 4 * n_records))
+        if rng.random() < 0.15:
+            nframes = rng.choice(H.HEADER_COUNT_BOUNDARIES)
         what = USTACK | (rng.getrandbits(14) & ~USTACK) if rng.random() < 0.85 else rng.getrandbits(14) & ~USTACK
         has_hdr = rng.random() < 0.9
         nested = []
@@ -118,6 +120,8 @@ def gen_history(rng, ctx):
             nested.append(H.stk_udata(data_words[4 * i:4 * i + 4]))
             if rng.random() < 0.2:
                 nested += [a for a in H.unrelated(rng, 1) if not str(a[0]).startswith(('DYLD_', 'PERF_'))]
+        if rng.random() < 0.4:
+            nested = H.reposition(rng, nested)      # the header / thread-data record anywhere among the data records
         seq = H.sampler(what, k, nested)
         is_stack = bool(what & USTACK) and has_hdr
         samples.append({'frames': data_words[:nframes] if is_stack else None, 'is_stack': is_stack})
